@@ -13,6 +13,7 @@ import anyio
 from anynet import http
 import vf
 import api_inventory
+import api_objseq
 import api_settings as aset
 import api_docs
 import switch_tables as st
@@ -151,6 +152,51 @@ def settings_checks(ctx, data, drv, nexsettings):
                  sample={"op": line[:120], "model": model_c[:120]} if ctx.evaluations % 211 == 0 else None)
         if real != model_c:
             diffs.append((line, real, model_c))
+    return diffs
+
+
+def objects_checks(ctx, data, drv):
+    """several Settings objects in ONE (fresh) process: create / mutate / copy / load / reset in mixed order, including
+    "write to the first object ever created, then create others"; real class vs an independent reference vs the model"""
+    from concurrent.futures import ThreadPoolExecutor
+    names = [k for k, _ in data["fields"]]
+    scen = api_objseq.scenarios(ctx.rng, names, 10 if ctx.tier == "quick" else 60)
+    with ThreadPoolExecutor(8) as ex:
+        reals = list(ex.map(lambda ops: api_objseq.run_real(vf.REPO, names, ops), scen))
+    prefix = ["cfg %s %s" % (n, ",".join(hx(l) for l in data["cfgs"].get(n, [])) or "-") for n in aset.CFGS]
+    mtoks = [api_objseq.model_ops(ops) for ops in scen]
+    outs = drv.batch(prefix + ["objseq " + " ".join(t) for t, _ in mtoks])[len(prefix):]
+    diffs = []
+    for si, (ops, (real, err), (toks, last), mout) in enumerate(zip(scen, reals, mtoks, outs)):
+        ctx.case(key="objects/%d/%s" % (si, json.dumps(ops)[:60]), nontrivial=True, tag="settings:objects", n=len(ops),
+                 sample={"ops": ops[:6]} if si == 0 else None)
+        if real is None:
+            ctx.violation("settings-objects:crash", "the Settings scenario crashed in a fresh interpreter: %s" % err, {"ops": ops, "stderr": err}); continue
+        ref = api_objseq.reference(ops, data["cfgs"], data["fields"])
+        for i, (op, r, e) in enumerate(zip(ops, real, ref)):
+            if r != e:
+                # name the first object and field that differ
+                detail = "status %r, expected %r" % (r[0], e[0])
+                for oi, (a, b) in enumerate(zip(r[1], e[1])):
+                    if a != b:
+                        fa, fb = a.split(","), b.split(",")
+                        j = next((j for j in range(min(len(fa), len(fb))) if fa[j] != fb[j]), 0)
+                        detail = "object #%d: %s is %s, expected %s" % (oi, names[j], fa[j], fb[j]); break
+                ctx.violation("settings-objects:%s" % op[0],
+                              "Settings objects are not independent / files do not load to their values: after step %d %r of a sequence on several objects in one process, %s"
+                              % (i, op, detail),
+                              {"ops": ops, "failing_step": i, "detail": detail, "real_after_step": r, "expected_after_step": e,
+                               "how": "harness/api_objseq.py RUNNER in a fresh /venv/bin/python with this op list"})
+                break
+        # model vs real (dumps after each real op; statuses except for configure, which the model sees as its assignments)
+        mg = mout.split(";") if mout != "bad-op" else []
+        for i, (op, r) in enumerate(zip(ops, real)):
+            if last[i] >= len(mg):
+                diffs.append(("objects", "objseq " + " ".join(toks), "step %d" % i, mout[:200])); break
+            st, _, dumps = mg[last[i]].partition("#")
+            md = [canon_model_dump(x) for x in dumps.split("|")] if dumps else []
+            if md != r[1] or (op[0] != "configure" and st != r[0]):
+                diffs.append(("objects", "objseq " + " ".join(toks), "step %d %r: %r" % (i, op, r), "%s#%s" % (st, md))); break
     return diffs
 
 
@@ -308,40 +354,57 @@ def switch_setter_checks(ctx, mods, tdata, drv18):
                 for call, args, tag in variants:
                     obs = []
                     for val in vals:
-                        cl = sc.make_client(mods, client, devid)
-                        caps, seen = [], []
-                        fake = FakeContext()
-                        if setter == "set_certificate": cl.set_context(fake)
+                        for mode in ("before-first-call", "after-first-call"):
+                            # fresh client with the setter applied before its first request, and a client that has already
+                            # made the same call once (setter after first use): the observable must be the same
+                            cl = sc.make_client(mods, client, devid)
+                            caps = []
+                            fake = FakeContext()
+                            if setter == "set_certificate": cl.set_context(fake)
 
-                        async def cb(host, req, context, caps=caps, cl=cl):
-                            caps.append((host, req.encode(), context))
-                            return sc.good_response(client, call, req)
+                            async def cb(host, req, context, caps=caps, cl=cl):
+                                caps.append((host, re.sub(rb"(cert|cert_key)=[A-Za-z0-9_%-]+", rb"\g<1>=*", req.encode()), context))
+                                return sc.good_response(client, call, req)
 
-                        async def cb2(host, req, context, caps=caps):
-                            caps.append(("CB2", host, req.encode(), context))
-                            return sc.good_response(client, call, req)
-                        cl.set_request_callback(cb)
-                        if client == "aauth" and call == "auth_digital": cl.set_system_version(1400)
-                        if setter == "set_request_callback":
-                            cl.set_request_callback(cb if val[0] == "cbA" else cb2)
-                        else:
-                            getattr(cl, setter)(*val)
-                        try:
-                            await sc.invoke(cl, client, call, args)
-                        except Exception as e:
-                            caps.append(("EXC", repr(e)))
-                        ob = [(c[0], c[1]) if len(c) == 3 else c[:3] for c in caps]
-                        if setter == "set_context": ob = [id(c[2]) == id(val[0]) and ("ctx", vals.index(val)) for c in caps if len(c) == 3]
-                        if setter == "set_certificate": ob = list(fake.calls)
-                        obs.append(ob)
-                        # every call honours host / context / callback
-                        for c in caps:
-                            if len(c) == 3:
-                                exp_host = val[0] if setter in ("set_host",) else None
-                                if exp_host is not None and c[0] != exp_host:
-                                    ctx.violation("host-ignored:%s.%s" % (client, call), "%s.%s does not send to the configured host" % (client, call), {"client": client, "call": call, "host": c[0]})
-                                if setter == "set_context" and c[2] is not val[0]:
-                                    ctx.violation("context-ignored:%s.%s" % (client, call), "%s.%s does not use the configured TLS context" % (client, call), {"client": client, "call": call})
+                            async def cb2(host, req, context, caps=caps):
+                                caps.append(("CB2", host, re.sub(rb"(cert|cert_key)=[A-Za-z0-9_%-]+", rb"\g<1>=*", req.encode()), context))
+                                return sc.good_response(client, call, req)
+                            cl.set_request_callback(cb)
+                            if client == "aauth" and call == "auth_digital" and setter != "set_system_version": cl.set_system_version(1400)
+                            if mode == "after-first-call":
+                                try:
+                                    await sc.invoke(cl, client, call, args)
+                                except Exception:
+                                    pass
+                                caps.clear(); del fake.calls[:]
+                            if setter == "set_request_callback":
+                                cl.set_request_callback(cb if val[0] == "cbA" else cb2)
+                            else:
+                                getattr(cl, setter)(*val)
+                            try:
+                                await sc.invoke(cl, client, call, args)
+                            except Exception as e:
+                                caps.append(("EXC", repr(e)))
+                            ob = [(c[0], c[1]) if len(c) == 3 else c[:3] for c in caps]
+                            if setter == "set_context": ob = [id(c[2]) == id(val[0]) and ("ctx", vals.index(val)) for c in caps if len(c) == 3]
+                            if setter == "set_certificate": ob = list(fake.calls)
+                            if mode == "before-first-call":
+                                obs.append(ob)
+                                first_ob = ob
+                            elif ob != first_ob:
+                                def show(o): return [x[1].decode("utf-8", "replace") if isinstance(x, tuple) and len(x) > 1 and isinstance(x[1], bytes) else repr(x) for x in o]
+                                ctx.violation("setter-after-use:%s.%s" % (client, setter),
+                                              "%s.%s%r after a first %s() call does not have the effect it has before the first call" % (client, setter, val if setter not in ("set_context",) else ("<ctx>",), call),
+                                              {"client": client, "setter": setter, "value": repr(val), "sequence": "%s(); %s%r; %s()" % (call, setter, val, call),
+                                               "request_setter_before_first_call": show(first_ob), "request_setter_after_first_call": show(ob)})
+                            # every call honours host / context / callback
+                            for c in caps:
+                                if len(c) == 3:
+                                    exp_host = val[0] if setter in ("set_host",) else None
+                                    if exp_host is not None and c[0] != exp_host:
+                                        ctx.violation("host-ignored:%s.%s" % (client, call), "%s.%s does not send to the configured host" % (client, call), {"client": client, "call": call, "host": c[0]})
+                                    if setter == "set_context" and c[2] is not val[0]:
+                                        ctx.violation("context-ignored:%s.%s" % (client, call), "%s.%s does not use the configured TLS context" % (client, call), {"client": client, "call": call})
                     if obs[0] != obs[1] and obs[0] and obs[1]:
                         effect = True
                     ctx.case(key="setter/%s/%s/%s/%s" % (client, setter, call, tag), nontrivial=True, tag="setter:%s.%s" % (client, setter))
@@ -442,6 +505,19 @@ def legacy_checks(ctx, drv):
                         except StopAsyncIteration: pass
                         real = hx(cap[-1][0]) + "|" + hx(cap[-1][1]) if cap else "none"
                         obs.append(real)
+                        # the same setter after the client has already made the call once
+                        c2 = nnas.NNASClient(); cap.clear()
+                        for _ in range(2):
+                            try:
+                                if which == "login": await c2.login("user name", "p&w", None)
+                                else: await c2.get_nex_token("tok", 0x1010EB00)
+                            except StopAsyncIteration: pass
+                            if _ == 0: getattr(c2, setter)(*val); cap.clear()
+                        real2 = hx(cap[-1][0]) + "|" + hx(cap[-1][1]) if cap else "none"
+                        if real2 != real:
+                            ctx.violation("setter-after-use:nnas.%s" % setter, "NNASClient.%s%r after a first %s call does not have the effect it has before the first call" % (setter, val, which),
+                                          {"setter": setter, "value": repr(val), "request_before": bytes.fromhex(real.split("|")[1]).decode("utf-8", "replace") if "|" in real else real,
+                                           "request_after": bytes.fromhex(real2.split("|")[1]).decode("utf-8", "replace") if "|" in real2 else real2})
                         lines.append("nnas %s -- %s" % (enc_set(setter, val), "login s:%s s:%s none" % (hx("user name"), hx("p&w")) if which == "login" else "token s:%s n:%d" % (hx("tok"), 0x1010EB00)))
                         reals.append(real); meta.append(("nnas", setter))
                 if obs[0] == obs[2] and obs[1] == obs[3]:
@@ -471,6 +547,24 @@ def legacy_checks(ctx, drv):
                         except Exception as e: err = e
                         real = ("ok " + hx(cap[-1][0]) + "|" + hx(cap[-1][1])) if cap else "err " + exc_name(err)
                         obs.append(real)
+                        # the same setter after a first login on the same object
+                        c2 = nasc.NASCClient(); err2 = None
+                        for nm, a in base:
+                            getattr(c2, nm)(*a)
+                        cap.clear()
+                        try: await c2.login(0x00030800, "nick é")
+                        except StopAsyncIteration: pass
+                        except Exception as e: pass
+                        try: getattr(c2, setter)(*val)
+                        except Exception as e: err2 = e
+                        cap.clear()
+                        try: await c2.login(0x00030800, "nick é")
+                        except StopAsyncIteration: pass
+                        except Exception as e: err2 = e
+                        real2 = ("ok " + hx(cap[-1][0]) + "|" + hx(cap[-1][1])) if cap else "err " + exc_name(err2)
+                        if real2 != real:
+                            ctx.violation("setter-after-use:nasc.%s" % setter, "NASCClient.%s%r after a first login does not have the effect it has before the first login" % (setter, val),
+                                          {"setter": setter, "value": repr(val), "request_before": real[:600], "request_after": real2[:600]})
                         lines.append("nasc s:%s %s -- login n:%d s:%s s:%s" % (hx(c.bss_id), " ".join(enc_set(nm, a) for nm, a in seq), 0x00030800, hx("nick é"), hx("240506070809")))
                         reals.append(real); meta.append(("nasc", setter))
                     if obs[0] == obs[1]:
@@ -495,6 +589,24 @@ def legacy_checks(ctx, drv):
                 except StopAsyncIteration: pass
                 real = hx(cap[-1][0]) if cap else "none"
                 hosts.append(real)
+                if env:
+                    c2 = hpp.HppClient(nexsettings.default(), 0x1234, "v1", 5, "pw"); c2.settings["prudp.access_key"] = "aabbccdd"
+                    seen2 = []
+                    for e2 in (None, env, "L1", env):
+                        if e2: c2.set_environment(e2)
+                        cap.clear()
+                        try: await c2.request(1, 2, b"x")
+                        except StopAsyncIteration: pass
+                        seen2.append(hx(cap[-1][0]) if cap else "none")
+                        mh = re.search(rb"\r\nHost: ([^\r]+)\r\n", cap[-1][1]) if cap else None
+                        if cap and (mh is None or mh.group(1).decode() != cap[-1][0]):
+                            ctx.violation("host-ignored:hpp", "HppClient Host header differs from the host it connects to", {})
+                    if seen2 != [hosts[0], real, hosts[0], real]:
+                        ctx.violation("setter-after-use:hpp.set_environment", "HppClient.set_environment(%r) after a first request does not change the host: requests went to %s"
+                                      % (env, [bytes.fromhex(x).decode() if x != "none" else x for x in seen2]),
+                                      {"sequence": "request(); set_environment(%r); request(); set_environment('L1'); request(); set_environment(%r); request()" % (env, env),
+                                       "hosts": [bytes.fromhex(x).decode() if x != "none" else x for x in seen2],
+                                       "expected": [bytes.fromhex(x).decode() for x in (hosts[0], real, hosts[0], real)]})
                 lines.append("hpp n:%d %s" % (0x1234, "none" if env is None else "s:" + hx(env))); reals.append(real); meta.append(("hpp", "set_environment"))
                 mh = re.search(rb"\r\nHost: ([^\r]+)\r\n", cap[-1][1]) if cap else None
                 if cap and (mh is None or mh.group(1).decode() != cap[-1][0]):
@@ -592,7 +704,10 @@ def run(ctx):
     ctx.rule = ("inventory: every documented signature of every reference page against the ast/inspect view of the module (exhaustive); "
                 "settings: Settings()/load of the four shipped files, every key x a fixed list of values of every Python type plus random "
                 "assignment sequences, copies; effects: every key x two values x five base configurations observed on the real consumer "
-                "objects; setters: every set_* of the ten HTTP clients x two values x every public call. A case is non-trivial when it "
+                "objects; setters: every set_* of the ten HTTP clients x two values x public calls, both before the first call and after a "
+                "first call on the same object (same effect required); several Settings objects created / mutated / copied / loaded / reset in "
+                "mixed order inside one fresh interpreter per scenario (fixed + seeded random), against an independent reference and the model. "
+                "A case is non-trivial when it "
                 "reaches the code under test; distinct = distinct (kind, inputs)")
     api_inventory.run(ctx)
     from nintendo.nex import settings as nexsettings
@@ -610,6 +725,7 @@ def run(ctx):
         ctx.obligation(n not in failed)
     drv = ctx.driver()
     diffs = []
+    diffs += objects_checks(ctx, data, drv)
     diffs += [("settings",) + d for d in settings_checks(ctx, data, drv, nexsettings)]
     diffs += [("effects",) + d for d in effects_checks(ctx, data, drv, nexsettings)]
     documented_fields_check(ctx, data, nexsettings)
